@@ -228,9 +228,9 @@ reg(
     "value_and_grad, vmap, nested jit, checkpoint, custom_jvp, lax.map, modular_vmap}, with seed applied nowhere / outermost / "
     "directly around the core. Each placement is built and called repeatedly (3 calls unseeded; 4 keys + a repeat seeded). "
     "Non-trivial: depth >= 2 or a construct the Seed interpreter does not special-case. Distinct by construction.",
-    quick={"shards": 16, "timeout_s": 3000, "depths": [1, 2], "cores_deep": ["dist_sample", "gf_simulate"], "exhaustive": True,
+    quick={"shards": 16, "timeout_s": 3000, "depths": [1, 2], "cores_deep": ["site_after_ops", "gf_simulate"], "exhaustive": True,
            "required_classes": ["C14.seed_none", "C14.seed_outer", "C14.seed_inner", "C14.depth_1", "C14.depth_2", "C14.outcome_lowering_error", "C14.outcome_value", "C14.outcome_vmap_error"]},
-    thorough={"shards": 16, "timeout_s": 3 * 3600, "depths": [1, 2], "cores_deep": ["dist_sample", "gf_simulate", "gf_call", "sample_shape", "adev_site"], "sample_depth3": 1500, "exhaustive": True,
+    thorough={"shards": 16, "timeout_s": 3 * 3600, "depths": [1, 2], "cores_deep": ["dist_sample", "gf_simulate", "gf_call", "sample_shape", "adev_site", "site_after_ops"], "sample_depth3": 1500, "exhaustive": True,
               "required_classes": ["C14.seed_none", "C14.seed_outer", "C14.depth_2", "C14.outcome_lowering_error"]},
     exhaustive=True,
 )
